@@ -486,6 +486,7 @@ class Machine:
         lib_std.install(self)
         lib_std.install2(self)
         lib_std.install3(self)
+        lib_std.install4(self)
 
     def reset(self):
         """Forget all per-path state (the static indexes and summaries are kept)."""
@@ -868,6 +869,9 @@ class Machine:
         cell = self.static_cells.get(name)
         if cell is None:
             f = self.prog.consts.get(name)
+            if f is None:
+                cands = [x for x in self.prog.consts.values() if x.kind == 'static' and (x.name.endswith(name) or name.endswith(x.name))]
+                f = cands[0] if len(cands) == 1 else None
             if f is not None and f.kind == 'static':
                 cell = Cell(self.run_body(f, []))
             else:
@@ -949,7 +953,7 @@ class Machine:
             return Adt(c.self_base, c.method, [])
         if c.method and c.self_base in ENUM_VALUES and c.method in ENUM_VALUES[c.self_base]:
             return Adt(c.self_base, c.method, [])
-        if c.method and (c.method[0].islower() or c.method.startswith('{')) or name.startswith('<'):
+        if c.method and (c.method[0].islower() or c.method[0] == '_' or c.method.startswith('{')) or name.startswith('<'):
             return FnItem(name)
         if c.method and c.method[0].isupper():
             return Adt(c.method, None, [])
@@ -1002,6 +1006,8 @@ class Machine:
         k = rv[0]
         if k == 'use':
             return self.operand(fr, rv[1])
+        if k == 'static_ref':
+            return Ptr(self.static_cell(rv[1]), (), None, True)
         if k == 'ref':
             p = self.place_ptr(fr, rv[2])
             if rv[1] in ('mut', 'rawmut') and not p.mut:
